@@ -325,9 +325,8 @@ Definition finish_file (src : str) (s : pstate) : pstate :=
               p_offset := p_offset s + p_cur_w s; p_cur_w := p_cur_w s; p_last_tw := p_last_tw s;
               p_pdiags := p_pdiags s; p_cache := p_cache s; p_emitted := p_emitted s;
               p_diags := p_diags s; p_panicked := p_panicked s |} in
-  let t := peek_term s in
-  let s := add_trivia_to_terminal src TEndOfFile t (p_offset s) s in
-  set_look s (tl (p_look s)).
+  let t := peek_term s in                             (* next_terminal().clone(): not popped *)
+  add_trivia_to_terminal src TEndOfFile t (p_offset s) s.
 
 (* ---- what the grammar can ask ---- *)
 Inductive op :=
